@@ -46,7 +46,8 @@ def generate(prop, rng):
         o = gen.weighted(rng, [(6, "mutate"), (3, "clock"), (9, "query"), (1, "inject")])
         if o == "mutate":
             ops.append({"op": o, "file": rng.randrange(nfiles),
-                        "how": rng.choice(["write", "same_len", "diff_len", "append", "replace", "replace_same_len", "touch", "delete", "recreate"]),
+                        "how": rng.choice(["write", "same_len", "diff_len", "append", "replace", "replace_same_len", "touch", "delete",
+                                           "recreate", "empty", "restore_old_stat", "restore_old_stat"]),
                         "tag": rng.randrange(100)})
         elif o == "clock":
             if rng.random() < 0.25:
@@ -59,7 +60,7 @@ def generate(prop, rng):
             kind = gen.weighted(rng, [(3, "get"), (4, "get_many"), (3, "hash_file"), (3, "build_dry"), (2, "build_entries"),
                                       (2, "snap_index"), (2, "update_check"), (1, "nonlocal"), (2, "hash_file_legacy")])
             q = {"op": o, "kind": kind, "file": rng.randrange(nfiles), "with_info": rng.random() < 0.5,
-                 "subset": rng.random()}
+                 "subset": rng.random(), "persist": rng.random() < 0.4}
             if kind in ("build_dry", "build_entries") and not big and rng.random() < 0.35:
                 # the user rewrites a file WHILE the directory is being hashed
                 q["mid"] = {"file": rng.randrange(nfiles), "after_reads": rng.randint(1, 4), "same_len": rng.random() < 0.5}
@@ -116,6 +117,7 @@ def execute(sc, ctx):
     odb = w.odb("cache", "local", state=state, tmp_dir=w.p("tmp"))
     files = sc["files"]
     cur = {}  # index -> bytes (None = absent)
+    versions = {}  # index -> [(mtime_ns, bytes)] of earlier in-place versions (same inode)
     saved = {}  # path -> {token: bytes when a row may have been written}
     row = {}  # path -> (token, bytes) model of the current md5 row
     hits = invalidations = 0
@@ -203,6 +205,7 @@ def execute(sc, ctx):
 
     old_index = None
     old_index_bytes = None
+    old_index_hash = {}
     for n, op in enumerate(sc["ops"]):
         k = op["op"]
         if k == "clock":
@@ -219,20 +222,46 @@ def execute(sc, ctx):
                 if cur.get(i) is not None:
                     REAL["os.unlink"](path(i))
                     cur[i] = None
+                    versions.pop(i, None)
             elif how == "recreate":
                 if cur.get(i) is not None:
                     REAL["os.unlink"](path(i))
                     cur[i] = None
+                versions.pop(i, None)
                 write(i, fresh(op["tag"], None))
             elif how == "touch":
                 if cur.get(i) is not None:
                     ctx.seam.stamp(path(i))
+            elif how == "empty":
+                if cur.get(i) is not None:
+                    versions.setdefault(i, []).append((REAL["os.stat"](path(i)).st_mtime_ns, cur[i]))
+                    write(i, b"", "diff_len")
+            elif how == "restore_old_stat":
+                # in-place rewrite with NEW bytes but the size and mtime of an EARLIER version
+                # (same inode): the clock stepped back and an old (inode, mtime, size) recurs
+                old = [v for v in versions.get(i, []) if len(v[1]) > 0]
+                if cur.get(i) is not None and old:
+                    mt, ob = old[op["tag"] % len(old)]
+                    versions.setdefault(i, []).append((REAL["os.stat"](path(i)).st_mtime_ns, cur[i]))
+                    nb = fresh(op["tag"], len(ob))
+                    with REAL["open"](path(i), "r+b") as f:
+                        f.write(nb)
+                        f.truncate()
+                    REAL["os.utime"](path(i), ns=(mt, mt))
+                    cur[i] = nb
+                    ctx.probe("old_stat_triple_recurs")
             elif how in ("same_len", "replace_same_len"):
                 if cur.get(i) is not None:
+                    if how == "same_len":
+                        versions.setdefault(i, []).append((REAL["os.stat"](path(i)).st_mtime_ns, cur[i]))
                     write(i, fresh(op["tag"], len(cur[i])), how)
             elif how == "append":
                 write(i, fresh(op["tag"])[:3] or b"+", "append")
             else:
+                if how in ("replace",):
+                    versions.pop(i, None)
+                elif cur.get(i) is not None and how in ("diff_len", "write"):
+                    versions.setdefault(i, []).append((REAL["os.stat"](path(i)).st_mtime_ns, cur[i]))
                 write(i, fresh(op["tag"]), how)
             if had_row and cur.get(i) is not None:
                 try:
@@ -374,11 +403,27 @@ def execute(sc, ctx):
                     row.pop(path(j), None)
         elif kind == "snap_index":
             old_index = imd5(ibuild(ws, fs), state=state)
+            if op.get("persist"):
+                # the previous index is written to disk and read back by a later command:
+                # only the serialised metadata survives (no inode / mtime)
+                from dvc_data.index import DataIndex
+
+                w.mkdirs(w.p("idx"))
+                dbp = w.p("idx", f"old{n}.db")
+                pidx = DataIndex.open(dbp)
+                for key, e in old_index.iteritems():
+                    pidx[key] = e
+                pidx.commit()
+                pidx.close()
+                old_index = DataIndex.open(dbp)
+                ctx.probe("old_index_reopened_from_disk")
             old_index_bytes = dict(cur)
+            old_index_hash = {}
             note_saved(range(len(files)))
             for key, e in old_index.iteritems():
                 rel = "/".join(key)
                 if rel in files and e.hash_info:
+                    old_index_hash[files.index(rel)] = e.hash_info.value
                     judge(files.index(rel), e.hash_info.name, e.hash_info.value, "index.md5")
         elif kind == "update_check":
             if old_index is None:
@@ -397,7 +442,11 @@ def execute(sc, ctx):
                         ob = old_index_bytes.get(j)
                         oe = old_index.get(key)
                         same_meta = oe is not None and oe.meta == e.meta
-                        if same_meta and ob is not None and ob != cur[j]:
+                        already_stale = (
+                            ob is not None and old_index_hash.get(j) == e.hash_info.value
+                            and old_index_hash.get(j) != model.ref_digest("md5", ob)
+                        )  # the old index itself carried a (tolerated) invisible-mutation hash, judged at snap time
+                        if (same_meta and ob is not None and ob != cur[j]) or (already_stale and ob == cur[j]):
                             ctx.probe("invisible_mutation_tolerated")
                         else:
                             ctx.violate("carried-over-hash-stale", "index.update", f"{rel}: {e.hash_info.value[:8]} vs {want[:8]}")
